@@ -4,7 +4,8 @@
   filter_result_multiple}` (C13).
 
   `remove_overlapping` is modelled with `fixes/D25_first_hit_twice.patch` (the grouping loop starts
-  at the second hit) and `fixes/D26_hmmer_total_sort_key.patch` (the hits are first sorted by the
+  at the second hit), `fixes/D62_overlap_groups_are_components.patch` (`filter_results` unites the
+  overlap groups a pair connects) and `fixes/D26_hmmer_total_sort_key.patch` (the hits are first sorted by the
   total key `(protein_start, protein_end, identifier, score)`) applied.
 
   Representation: `HmmerHit` ↦ its property-level fields (identifier rank, protein start/end,
@@ -140,27 +141,25 @@ def filterMultiple (hits : List FHit) : List FHit :=
 def filterMultipleAll (genes : List (List FHit)) : List FHit :=
   sortBy (fun (a b : FHit) => decide (a.hs ≤ b.hs)) (genes.flatMap filterMultiple)
 
-/-- the `for group in overlapping_groups` update: every group sharing a member takes the pair;
-    returns the groups and whether a new one is still needed -/
-def joinGroups (a b : FHit) : List (List FHit) → List (List FHit) × Bool
-  | [] => ([], true)
-  | g :: gs =>
-    let (gs', need) := joinGroups a b gs
-    if g.contains a || g.contains b then (addNew (addNew g a) b :: gs', false) else (g :: gs', need)
+/-- `pairing.update(group)` for a set kept as a list -/
+def unionNew (acc g : List FHit) : List FHit := g.foldl addNew acc
 
-/-- one step of the double loop over `cdsresults` -/
+/-- does the group share a member with the pair -/
+def touches (a b : FHit) (g : List FHit) : Bool := g.contains a || g.contains b
+
+/-- one step of the double loop over `cdsresults` (fix D62): the groups sharing a member with the
+    pair are united with it into one group, which is appended after the untouched ones -/
 def addPair (groups : List (List FHit)) (a b : FHit) : List (List FHit) :=
   if a.uid == b.uid || decide (overlapSize a b ≤ 20) then groups
   else
-    let (gs, need) := joinGroups a b groups
-    if need then gs ++ [[a, b]] else gs
+    let pairing := (groups.filter (touches a b)).foldl unionNew [a, b]
+    groups.filter (fun g => !touches a b g) ++ [pairing]
 
 def overlappingGroups (hits : List FHit) : List (List FHit) :=
   hits.foldl (fun gs a => hits.foldl (fun gs b => addPair gs a b) gs) []
 
-/-- `best = list(group)[0]; for hit in group: if hit.bitscore > best.bitscore: best = hit`
-    (first maximum in the group's enumeration; for a real `set` the enumeration follows the
-    objects' addresses, which only matters when scores tie) -/
+/-- `best = group[0]; for hit in group: if hit.bitscore > best.bitscore: best = hit`
+    (first maximum of the enumeration it is given) -/
 def bestIn : FHit → List FHit → FHit
   | best, [] => best
   | best, h :: t => if h.sc > best.sc then bestIn h t else bestIn best t
@@ -169,12 +168,16 @@ def groupBest : List FHit → Option FHit
   | [] => none
   | h :: t => some (bestIn h t)
 
-/-- uids deleted by one equivalence-group pass over one gene -/
-def removedBy (groups : List (List FHit)) : List Nat :=
+/-- `group = sorted(unordered_group, key=position)`: the members in the order of the gene's hits -/
+def inHitOrder (hits g : List FHit) : List FHit := hits.filter fun h => g.contains h
+
+/-- uids deleted by one equivalence-group pass over one gene: all members of a group except its
+    best, the first of the best-scoring members in the order of the gene's hits -/
+def removedBy (hits : List FHit) (groups : List (List FHit)) : List Nat :=
   groups.flatMap fun g =>
-    match groupBest g with
+    match groupBest (inHitOrder hits g) with
     | none => []
-    | some best => (g.filter (fun h => h.uid != best.uid)).map (·.uid)
+    | some best => ((inHitOrder hits g).filter (fun h => h.uid != best.uid)).map (·.uid)
 
 /-- one pass of the outer loop for one gene: unchanged unless ≥ 2 distinct profiles of the
     equivalence group hit the gene -/
@@ -182,7 +185,7 @@ def filterPass (hits : List FHit) (eqGroup : List Int) : List FHit :=
   let present := (ASV.Refine.firstOcc (hits.map (·.prof))).filter (fun p => eqGroup.contains p)
   if present.length < 2 then hits
   else
-    let removed := removedBy (overlappingGroups hits)
+    let removed := removedBy hits (overlappingGroups hits)
     hits.filter (fun h => !removed.contains h.uid)
 
 /-- `filter_results` for one gene; `none` = the `assert results_by_id[cds]` fails -/
